@@ -18,10 +18,14 @@ pub mod c09;
 pub mod c12;
 pub mod c13;
 pub mod c18;
+pub mod crash;
 
 pub fn check(prop: &str, tier: Tier) -> i32 {
 	match prop {
 		"C01" => c01::check(tier),
+		"C02" => crash::check("C02", tier),
+		"C03" => crash::check("C03", tier),
+		"C07c" => crash::check("C07", tier),
 		"C04" => c04::check(tier),
 		"C06" => c06::check(tier),
 		"C07" => c07::check(tier),
@@ -55,6 +59,7 @@ pub fn replay(prop: &str, file: &str) -> i32 {
 	let r = j.get("replay").cloned().unwrap_or(j.clone());
 	match prop {
 		"C06" | "C01" | "C07" | "C11" if r["engine"] == "world" => replay_world(prop, &r),
+		"C02" | "C03" | "C07" | "C07c" if r["engine"] == "crash" => crash::replay(if prop == "C07c" { "C07" } else { prop }, &r),
 		"C04" => c04::replay(&r),
 		"C08" => c08::replay(&r),
 		"C09" => c09::replay(&r),
@@ -68,8 +73,11 @@ pub fn replay(prop: &str, file: &str) -> i32 {
 	}
 }
 
-pub fn worker(_prop: &str, _args: &[String]) -> i32 {
-	2
+pub fn worker(kind: &str, args: &[String]) -> i32 {
+	match kind {
+		"trace" => crate::crashx::worker_trace(&args[0]),
+		_ => 2,
+	}
 }
 
 // ---------------------------------------------------------------------------
